@@ -6,9 +6,11 @@ sys.path.insert(0, os.path.join(ROOT, "checklib"))
 from registry import PROPS, HOOK_COMMITS, NOT_CLAIMED_REASON
 
 all_ids = [json.loads(l)["id"] for l in open(os.path.join(ROOT, "properties.jsonl"))]
+# only properties the coordinator has seen green (./check Cxx on the unchanged tree) are claimed
+claimed = set(open(os.path.join(ROOT, "checklib", "claimed.txt")).read().split())
 checks = []
 for pid in all_ids:
-    if pid not in PROPS:
+    if pid not in PROPS or pid not in claimed:
         continue
     c = PROPS[pid]
     checks.append({
@@ -39,7 +41,7 @@ m = {
     ],
     "checks": checks,
     "notes": "See DESIGN.md. known_findings.jsonl lists genuine defects recorded rather than repaired; fixed entries document fix: commits in /repo.",
-    "not_applicable": [{"property_id": p, "reason": NOT_CLAIMED_REASON.get(p, "check not built yet (work in progress); no claim made")} for p in all_ids if p not in PROPS],
+    "not_applicable": [{"property_id": p, "reason": NOT_CLAIMED_REASON.get(p, "check not built yet (work in progress); no claim made")} for p in all_ids if p not in PROPS or p not in claimed],
 }
 json.dump(m, open(os.path.join(ROOT, "MANIFEST.json"), "w"), indent=1)
 print("MANIFEST.json:", len(checks), "checks,", len(m["not_applicable"]), "not claimed")
